@@ -217,6 +217,16 @@ Theorem C04_freqs_consistent : forall (u : Q) (c N : Z), (0 < N)%Z -> ~ (u == 0)
 Proof. exact freqs_consistent. Qed.
 Print Assumptions C04_freqs_consistent.
 
+(** DenseLinearGenomicModel's own facount/dacount: the definitions on non-neutral markers ... *)
+Theorem C04_dlgm_counts_partial : forall (u : Q) (c N : Z), ~ (u == 0)%Q -> fa1_L u c N = fa1 u c N /\ da1_L u c N = da1 u c N.
+Proof. exact L_counts_nonneutral. Qed.
+Print Assumptions C04_dlgm_counts_partial.
+
+(** ... but a neutral allele is counted both as favourable and as deleterious (finding C04-dlgm-neutral-alleles) *)
+Theorem C04_dlgm_counts_refuted : exists (u : Q) (c N : Z), (0 <= c <= N)%Z /\ (u == 0)%Q /\ fa1_L u c N <> fa1 u c N /\ da1_L u c N <> da1 u c N /\ (fa1_L u c N + da1_L u c N)%Z <> 0%Z.
+Proof. exact L_counts_neutral_refuted. Qed.
+Print Assumptions C04_dlgm_counts_refuted.
+
 (** allele counts of a well-formed dosage matrix lie in [0, ploidy*n] (hypothesis of the two theorems above) *)
 Theorem C04_acount_range : forall (ploidy : Z) (p : nat) (mat : zmat), (0 <= ploidy)%Z ->
   Forall (fun r => length r = p) mat -> Forall (Forall (fun x => 0 <= x <= ploidy)%Z) mat ->
@@ -300,6 +310,17 @@ Theorem C04_rr_normal_equations_partial : forall p (Zg : zmat) y ridge atol maxi
        Qabs' (nth i (residual A b (select mask u)) 0) <= atol * bigsum pp (fun j => if Nat.ltb i j then Qabs' (nth j (nth i A []) 0) else 0)).
 Proof. exact rr_fit1_normal_equations. Qed.
 Print Assumptions C04_rr_normal_equations_partial.
+
+(** the unguarded clause is false of the faithful model: n > p_polymorphic does not imply that the residual check passes *)
+Theorem C04_rr_normal_equations_refuted : exists p (Zg : zmat) y ridge atol maxiter beta u,
+  (length (filter (fun x => x) (poly_mask p Zg)) < length Zg)%nat /\ 0 < ridge /\ 0 < atol /\ (0 < maxiter)%nat /\
+  rr_fit1 p Zg y ridge atol maxiter = Some (beta, u) /\
+  let mask := poly_mask p Zg in
+  let Zp := map (fun r => select mask (map inject_Z r)) Zg in
+  let pp := length (filter (fun x => x) mask) in
+  resid_ok (ztz_ridge pp Zp ridge) (zty pp Zp (center y)) (select mask u) atol = false.
+Proof. exact rr_normal_equations_refuted. Qed.
+Print Assumptions C04_rr_normal_equations_refuted.
 
 (** the hypotheses above are satisfiable: with a positive ridge the model fit is always defined *)
 Theorem C04_rr_defined : forall p (Zg : zmat) y ridge atol maxiter, length y = length Zg -> 0 < ridge ->
